@@ -254,6 +254,82 @@ class HeapMaintenance(Harness):
                     volume=(K if case["ops"] != ["R"] else 2 * K - 1) if case["deep"] else None)
 
 
+class DeepHeap(Harness):
+    """Deep one-sided books (8-12 resting orders) at no exploration cost for the build-up: the i-th order is
+    assumed no better than the order at heap position parent(i), so every heappush keeps it where it lands
+    (no comparison forks) -- and every heap-ordered layout is produced this way, by pushing in array order.
+    Then one disturbing operation and a sweep of a few lots; the forks are those of the pops only."""
+    name = "DeepHeap"
+    title = "priority / prices of fills on deep books (8-12 resting orders) after a partial round or a cancel"
+    what_symbolic = ("limit prices of the resting orders (any heap-ordered, pairwise distinct assignment), price of the "
+                     "sweeping order; depth, side, the disturbing operation and the sweep size are the case split")
+    nontrivial_event = "the sweep filled at least two resting orders"
+    bounds = {"quick": "K = 8 resting limit orders on one side, heap-ordered distinct prices; one operation (one-lot round "
+                       "against the top, or cancel of the order at heap position i >= 1) then a limit sweep of 5 lots",
+              "thorough": "K in {8, 10, 12} (for 12: the round, and cancels at heap positions 1,3,4,5,6)"}
+    reach = ("nontrivial",)
+    props = ("C02",)
+    agreement_runs = 6
+    assumptions = ("DeepHeap: prices are assumed heap-ordered along the arrival order (order i no better than order "
+                   "(i-1)//2) and pairwise distinct; all orders arrive at one time step",)
+
+    def cases(self, tier):
+        out = []
+        for K in ((8,) if tier == "quick" else (8, 10, 12)):
+            for is_buy in (True, False):
+                ops = ["R"] + [["C", i] for i in range(1, K)]
+                if K == 12:
+                    ops = ["R"] + [["C", i] for i in (1, 3, 4, 5, 6)]      # inner heap positions
+                for op in ops:
+                    out.append({"K": K, "is_buy": is_buy, "op": op, "sweep": 5})
+        return out
+
+    def run(self, g, case):
+        lg = RecLogger()
+        is_buy, K = case["is_buy"], case["K"]
+        m = mk_market(tick=1, price=300, logger=lg, running=True)
+        recs, orders = [], []
+        vol = 2 if case["op"] == "R" else 1
+        for i in range(K):
+            p = g.int(f"p{i}", 1, PRICE_HI)
+            if i > 0:
+                par = recs[(i - 1) // 2]["price"]
+                g.assume(p < par if is_buy else p > par)
+                for r0 in recs:
+                    g.assume(p != r0["price"])
+            o = new_order(g, str(i), is_buy=is_buy, price=p, volume=vol)
+            log = m._add_order(o)
+            m._execution()
+            orders.append(o)
+            recs.append({"id": log.order_id, "is_buy": is_buy, "is_market": False, "price": p, "time": m.get_time(),
+                         "volume": vol, "dead": False, "filled": 0, "left": True, "ttl": None})
+        hm = HeapMaintenance()
+        hm.props = self.props
+        if case["op"] == "R":
+            hm._round(g, m, recs, is_buy, "r", market=True, volume=1)
+        else:
+            i = case["op"][1]
+            m._cancel_order(Cancel(order=orders[i]))
+            m._execution()
+            recs[i]["dead"] = True
+        if "C08" in self.props:
+            hm._check_best(g, m, recs, is_buy)
+        # the sweep: a limit order at a solver-chosen price for `sweep` lots
+        hm._round(g, m, recs, is_buy, "x", market=False, volume=case["sweep"] * vol - (1 if case["op"] == "R" else 0))
+
+
+class C02_DeepHeap(DeepHeap):
+    pass
+
+
+class C01_DeepHeap(DeepHeap):
+    props = ("C01",)
+
+
+class C03_DeepHeap(DeepHeap):
+    props = ("C03",)
+
+
 class C02_OrderLaws(OrderLaws):
     pass
 
